@@ -2,7 +2,7 @@
 import re
 from .runner import Prop
 from . import core
-from gen import trees, text, misc
+from gen import trees, text, misc, builtins
 
 COMMON_ASSUME = ['the model corresponds to the code only as far as the generated cases exercise it (differential test, not a proof)',
                  'Rust std, rustc and the crates of Cargo.lock behave as documented']
@@ -195,4 +195,85 @@ class C19(Prop):
         return True
 
 
-ALL = {c.pid: c for c in (C12, C19, C01, C02, C03, C04, C05, C06, C07, C08, C10, C11)}
+class C15(Prop):
+    pid = 'C15'
+    variants = ['release', 'release-zb']
+    k_fields = ['R']
+    o_fields = ['poscoh']
+    k_is_o = True
+    rule = ('length, at, copy, insert, find, count, contains, replace/remove, reverse, unique, all/any, split, split_csv, trim*, lowercase/uppercase/same_text over 32 '
+            'strings (ASCII, 2/3/4-byte, combining, empty, CSV, whitespace, special-casing letters) x positions -1..8 and boundary magnitudes x counts x 18 needles, '
+            '8 arrays (heterogeneous, nested, empty) x positions x elements, random strings; in both index-base configurations (default build and '
+            'zero_based_strings build); compared with the sequence model in Coq (result or error variant); oracle on the implementation alone (poscoh): at '
+            'enumerates s, copy(s, find(s,x), length(x)) = x for every substring, failed find = first-1, count/contains/insert/reverse/unique coherence')
+    assumptions = COMMON_ASSUME + ['Unicode case mapping beyond ASCII is not modelled (those cases are compared by the coherence oracle only)']
+
+    def gen(self, tier, R):
+        return [(c, 'release') for c in builtins.gen_c15(tier, R, 1)] + [(c, 'release-zb') for c in builtins.gen_c15(tier, R, 0)]
+
+    def nontrivial(self, line, k):
+        return k.startswith('R=ok') or k.startswith('R=checked')
+
+
+class C17(Prop):
+    pid = 'C17'
+    k_fields = ['R']
+    o_fields = ['mathref']
+    k_is_o = True
+    rule = ('str/float/int/bool/chr/ord/int_to_hex/even/odd/abs/round/trunc/frac/sqrt on a 70-value boundary pool, 6000 (400000) random doubles (random bit patterns, '
+            'integers of either sign, huge magnitudes, halfway cases), code points 0..299 and boundaries for chr/ord, 34 strings that do or do not parse as numbers - '
+            'compared with the Coq models (Flocq arithmetic, Rust float grammar); oracle on the implementation alone (mathref): every maths builtin bitwise equal to '
+            'the f64 method of the same name called independently, round = half away from zero, trunc+frac = x, float(str(x)) = x, parity for every integer, '
+            'int_to_hex = upper-case hex of the truncated value, chr/ord inverse on 0..127 and rejecting everything else')
+    assumptions = COMMON_ASSUME + ['transcendental functions and shortest-digit printing are oracles: compared with Rust std itself, not with a Coq definition']
+
+    def gen(self, tier, R):
+        return [(c, 'release') for c in builtins.gen_c17(tier, R)]
+
+
+class C16(Prop):
+    pid = 'C16'
+    k_fields = ['R']
+    o_fields = ['calendar', 'timeofday']
+    k_is_o = True
+    per_case_timeout = 2.0
+    rule = ('component extraction on boundary and random date-time numbers (years 1..9999, chrono range limits, NaN/inf), encode_date/encode_time with valid and '
+            'invalid fields, inc_month with increments -30..30 and extremes, default-format printing and parsing - compared with the Coq calendar model '
+            '(Hinnant day algorithms over Z, Flocq float layer); oracle on the implementation alone: daterange enumerates every day of the given years '
+            '(114 years quick / all 3 652 059 dates of years 1..9999 thorough) against an independent day count: encode, year/month/day/day_of_week/is_leap_year, '
+            'date_to_string/string_to_date, rejection of month 0/13 and day 0/32/30 February, inc_month clamping, date+time; todrange enumerates times of day at '
+            'millisecond resolution (2.2 million quick / all 86 400 000 thorough): encode_time exact, hour/minute/second/millisecond recover')
+    assumptions = COMMON_ASSUME + ["chrono's calendar, formatter and parser are trusted beyond the default patterns"]
+
+    def gen(self, tier, R):
+        return [(c, 'release') for c in builtins.gen_c16(tier, R)]
+
+
+class C13(Prop):
+    pid = 'C13'
+    k_fields = ['R']
+    o_fields = ['order', 'sorted']
+    known_covers_k = True
+    rule = ('all ordered pairs of a 40-value pool (NaN, signed zeros, infinities, numeric and non-numeric strings, booleans, nested and mixed arrays) through Value::cmp/== '
+            'and compare(); 12000 sampled (all 64000) triples: the order laws through the operators evaluated by execute, compare, between, min/max (ord3); arrays of '
+            '0..12 and 100..300 elements: sort is a permutation, ordered, idempotent, min/max are bounding members (sortlaws) and sort/min/max equal the stable-sort '
+            'model on tame arrays; a failing case whose leaves contain a NaN, or a Number next to a numerically parsable String, is the recorded known finding')
+    assumptions = COMMON_ASSUME + ['on arrays that are not tame the result of slice::sort is algorithm-dependent: only permutation/no-panic is compared there']
+
+    def gen(self, tier, R):
+        return [(c, 'release') for c in builtins.gen_c13(tier, R)]
+
+    def known(self, line, k, o):
+        if o.get('nan') == 'true':
+            return 'not_tame_nan'
+        if o.get('mix') == 'true':
+            return 'not_tame_numeric_string'
+        el = core.top_elems(line)
+        args = el[4:] if el and el[0] == 'bi' else (el[2:] if el and el[0] in ('sortlaws', 'ord3') else None)
+        if args is not None and builtins.is_nontame_arr(args):
+            txt = ' '.join(args)
+            return 'not_tame_nan' if '(n 9221120237041090560)' in txt else 'not_tame_numeric_string'
+        return None
+
+
+ALL = {c.pid: c for c in (C13, C15, C16, C17, C12, C19, C01, C02, C03, C04, C05, C06, C07, C08, C10, C11)}
